@@ -69,7 +69,7 @@ func VPH_C14_nfs() {
 	}
 	// the handle menu includes one that is no longer tracked (stale), in either position of the
 	// two-handle procedures
-	g := &vpGen{handles: []uint64{hd, hx, hl, 0x7fffffff00000001}, names: []string{"x", "new"}, wild: vpTier() == 1, maxData: 2}
+	g := &vpGen{handles: []uint64{hd, hx, hl, 0x7fffffff00000001}, names: []string{"x", "new"}, wild: vpTier() == 1, wildName: -1, maxData: 2}
 	var body []byte
 	argSel := vpChoose("args", 0, 2)
 	switch argSel {
